@@ -31,7 +31,7 @@ RULE = ("A case is a history on two owners A, B of one type, ended by the destru
         "alternatives, optional, expected, inplace_function with 2 callable types; element kinds copy+move, move-only, "
         "copy-only (move-only cannot be stored in inplace_function). Exhaustive part: for the containers, from EVERY pair of "
         "sizes (|A|,|B|) in [0,cap]^2 every member with every position / range / count it accepts (one-step box), and from "
-        "every size pair every sequence of 2 (thorough: 3) operations of an (12-19 letters) that contains every "
+        "every size pair every sequence of 2 (thorough: 3) operations of an alphabet of 12-19 letters that contains every "
         "copy/move/assign/swap/self form; for variant / optional / expected / inplace_function from EVERY pair of live "
         "alternatives every sequence of 2 (thorough: 3) operations over the full alphabet (all from/to index combinations of "
         "every emplace<J>(int / T const& / T&&), converting assignment v = t / v = move(t) / v = v[index_v<index()>], "
